@@ -16,7 +16,7 @@ GenNext == /\ ~done /\ done' = TRUE /\ rng' = rng
            /\ LET n == 1 + Below(Nth(rng, 1), MaxNodes) IN
               PrintT(ToJson([parents |-> Parents(n, 1, <<>>),
                              flags |-> [i \in 1..(n + 1) |-> Below(Nth(rng, 30 + i), 128)],
-                             argvals |-> [i \in 1..4 |-> Below(Nth(rng, 60 + i), 3)],
-                             spelling |-> [i \in 1..4 |-> Below(Nth(rng, 70 + i), 2)]]))
+                             argvals |-> [i \in 1..6 |-> Below(Nth(rng, 60 + i), 3)],
+                             spelling |-> [i \in 1..6 |-> Below(Nth(rng, 70 + i), 2)]]))
 GenSpec == GenInit /\ [][GenNext]_<<rng, done>>
 =============================================================================
